@@ -70,7 +70,44 @@ pub fn scenarios(tier: &str, tr: &h::Transcript) -> Vec<h::Scenario> {
         }
         alts.extend(extra);
         for alt in alts {
-          v.push(h::Scenario { pos, to_b, msg, alt });
+          v.push(h::Scenario { pos, to_b, msg, alt, second: None });
+        }
+      }
+    }
+  }
+  if thorough {
+    // two bad tokens per run: structural alterations only, second one right away or one genuine delivery later
+    let structural = |m: usize| -> Vec<h::Alt> {
+      let mut a = vec![h::Alt::Verbatim, h::Alt::FromOldRun, h::Alt::ClassId(0), h::Alt::ClassId(1), h::Alt::ClassId(2)];
+      for (n, len) in h::props_of(&tr.m[m]) {
+        a.push(h::Alt::DropProp(n.clone()));
+        a.push(h::Alt::EmptyProp(n.clone()));
+        if !n.starts_with("c.") && len > 0 {
+          a.push(h::Alt::Flip(n.clone(), 0, 0x01));
+        }
+      }
+      a
+    };
+    for pos in 0..=2usize {
+      for to_b in [true, false] {
+        for msg in 0..=pos.min(2) {
+          for alt in structural(msg) {
+            for steps_between in [0usize, 1] {
+              for to_b2 in [true, false] {
+                for msg2 in 0..=(pos + steps_between).min(2) {
+                  for alt2 in structural(msg2) {
+                    v.push(h::Scenario {
+                      pos,
+                      to_b,
+                      msg,
+                      alt: alt.clone(),
+                      second: Some(h::Second { steps_between, to_b: to_b2, msg: msg2, alt: alt2 }),
+                    });
+                  }
+                }
+              }
+            }
+          }
         }
       }
     }
@@ -153,7 +190,10 @@ pub fn run(tier: &str) -> i32 {
     }
     accepted += u64::from(r.accepted);
     completed += u64::from(r.completed);
-    let cls = alt_class(&sc.alt);
+    let cls = match &sc.second {
+      None => alt_class(&sc.alt),
+      Some(x) => format!("{}&then:{}", alt_class(&sc.alt), alt_class(&x.alt)),
+    };
     let to = if sc.to_b { "replier" } else { "requester" };
     *classes.entry(format!("m{} {} -> {} in {}", sc.msg + 1, cls.split(':').next().unwrap(), to, r.target_state)).or_insert(0) += 1;
     let replay = json!({"scenario": sc});
@@ -161,12 +201,12 @@ pub fn run(tier: &str) -> i32 {
     // hash_c1 property is optional. Its only purpose is to facilitate troubleshoot interoperability problems");
     // the receiver recomputes them from the c.* properties, which the signatures cover. A token without them is
     // the same genuine message.
-    let void = matches!(&sc.alt, h::Alt::DropProp(n) | h::Alt::RenameProp(n) if n == "hash_c1" || n == "hash_c2");
-    // a class id change with the hashes dropped is still a class id change etc.: only the bare drop is void
+    // (void alterations - only the optional hashes removed - are injected as genuine content, see hs19::is_void)
+    let void = h::is_void(&sc.alt) || sc.second.as_ref().map(|x| h::is_void(&x.alt)).unwrap_or(false);
     if void {
       void_alterations += 1;
     }
-    if let (Some(w), false) = (&r.completed_on_bad, void) {
+    if let Some(w) = &r.completed_on_bad {
       rep.violation(
         &format!("C19:authenticated-on-bad:m{}:{}", sc.msg + 1, cls),
         replay.clone(),
@@ -175,7 +215,7 @@ pub fn run(tier: &str) -> i32 {
     }
     if !(r.completed && r.secrets_equal) {
       // one class for every request token the replier accepts although it is not the requester's genuine one
-      let key = if sc.to_b && r.target_state == "ReqMsg" && r.accepted {
+      let key = if r.replier_accepted_bad_request {
         "C19:blocked:replier-accepted-non-genuine-request".to_string()
       } else {
         format!("C19:blocked:{}:{}:m{}:{}", r.target_state, to, sc.msg + 1, cls)
@@ -200,11 +240,11 @@ pub fn run(tier: &str) -> i32 {
   rep.set("distinct_nontrivial", json!(classes.len()));
   rep.set("scenario_classes", json!(classes));
   rep.set("exhaustive", json!(true));
-  rep.set("rule", json!("every point of the genuine run (0..3 messages delivered) x target (requester, replier) x message seen so far x alteration {verbatim replay/reordering/reflection, the same message of an earlier completed handshake, each other class id, every binary property dropped / renamed / emptied / replaced by its value from the earlier handshake, each of these and every flip in the nonces, keys and signatures additionally with the optional hash_c1/hash_c2 removed, foreign-CA certificate and unbound GUID with the content hash kept / recomputed / dropped}; every byte of every binary property flipped for the message in its natural slot (thorough: three masks, and also one step late); one injection per run, then the genuine messages keep flowing with the discovery layer's resends for 6 rounds"));
+  rep.set("rule", json!("every point of the genuine run (0..3 messages delivered) x target (requester, replier) x message seen so far x alteration {verbatim replay/reordering/reflection, the same message of an earlier completed handshake, each other class id, every binary property dropped / renamed / emptied / replaced by its value from the earlier handshake, each of these and every flip in the nonces, keys and signatures additionally with the optional hash_c1/hash_c2 removed, foreign-CA certificate and unbound GUID with the content hash kept / recomputed / dropped}; every byte of every binary property flipped for the message in its natural slot (thorough: three masks, and also one step late); one injection per run (thorough: also every pair of structural alterations, the second right away or one genuine delivery later), then the genuine messages keep flowing with the discovery layer's resends for 6 rounds"));
   rep.assumptions = vec![
     "The six-state dispatch of SecureDiscovery::participant_stateless_message_read (which plug-in call per state, state after Ok/Err, message stored for resending) is mirrored in incrate/sec/hs19.rs; every plug-in call is real".into(),
     "The adversary can set the related-message identity of a stateless message (it is not signed), so injected tokens reach the plug-in".into(),
-    "One injection per run; responses a participant computes from a bad message are treated as bad too".into(),
+    "One injection per run in the quick tier, one or two in the thorough tier; responses a participant computes from a bad message are treated as bad too".into(),
     "Dropping or renaming hash_c1 / hash_c2 (optional troubleshooting aids per DDS-Security 1.1 tables 49-51, recomputed by the receiver) is not counted as an alteration of the message content: completing on such a token is accepted; the second clause (the genuine handshake still completes) is asserted for them as for all others".into(),
   ];
   rep.finish()
